@@ -472,12 +472,10 @@ func regC16(add addFn, p pFn) {
 	for _, n := range []int{4, 5} {
 		add(&Instance{Property: "C16", Name: "getkdcs-n" + itoa(n), Entry: "config.VH_C16_GetKDCs", Params: p("n", n), Stubs: []string{"randstub"}, Replay: "stubbed", Tier: "thorough", TimeoutS: 1500, Reach: []string{"done"}, Bound: "n configured KDCs"})
 	}
-	for _, n := range []int{0, 1, 2, 3} {
+	for _, n := range []int{0, 1, 2, 3, 4, 5} { // up to the longest documented spelling ("false")
 		add(&Instance{Property: "C16", Name: "boolean-n" + itoa(n), Entry: "config.VH_C16_ParseBoolean", Params: p("n", n), Bound: "EVERY printable ASCII string of exactly n bytes"})
 	}
-	for _, n := range []int{4, 5} {
-		add(&Instance{Property: "C16", Name: "boolean-n" + itoa(n), Entry: "config.VH_C16_ParseBoolean", Params: p("n", n), Tier: "thorough", TimeoutS: 1500, Bound: "every printable ASCII string of n bytes"})
-	}
+	add(&Instance{Property: "C16", Name: "boolean-n6", Entry: "config.VH_C16_ParseBoolean", Params: p("n", 6), Tier: "thorough", TimeoutS: 1500, Bound: "every printable ASCII string of 6 bytes (spellings padded with blanks)"})
 	add(&Instance{Property: "C16", Name: "realm-lines-v2", Entry: "config.VH_C16_RealmLines", Params: p("values", 2), Reach: []string{"done"}, Bound: "2 kdc lines with values of 1..2 characters over {h,:,*}"})
 	add(&Instance{Property: "C16", Name: "realm-lines-v3", Entry: "config.VH_C16_RealmLines", Params: p("values", 3), Tier: "thorough", Reach: []string{"done"}, Bound: "3 kdc lines"})
 }
